@@ -24,7 +24,7 @@ CLAIM = dict(
               "translator for dispatch tables, differential correspondence over a closed operand universe",
     design="7/C01")
 
-MODULES = ["Klong.Props.C01", "Klong.Props.C01Struct"]      # + C01Ext1 / C01Ext2 below
+MODULES = ["Klong.Props.C01", "Klong.Props.C01Struct", "Klong.Props.C01Ext1", "Klong.Props.C01Ext2"]
 THEOREMS = [
     "Klong.C01.atomic_dyad_correct",
     "Klong.C01.atomic_monad_correct",
@@ -39,6 +39,9 @@ THEOREMS += [
     "Klong.C01.split_correct",
     "Klong.C01.split_pinned_wrong",
 ]
+
+THEOREMS += ["Klong.C01.Ext1.cut_correct", "Klong.C01.Ext1.cutSegs_correct", "Klong.C01.Ext1.join_correct", "Klong.C01.Ext1.index_correct", "Klong.C01.Ext1.find_str_correct", "Klong.C01.Ext1.finditer_correct", "Klong.C01.Ext1.find_list_correct", "Klong.C01.Ext1.match_correct", "Klong.C01.Ext1.kgEqual_correct", "Klong.C01.Ext1.first_correct", "Klong.C01.Ext1.size_correct", "Klong.C01.Ext1.enumerate_correct", "Klong.C01.Ext1.atom_correct", "Klong.C01.Ext1.list_correct", "Klong.C01.Ext1.not_correct", "Klong.C01.Ext1.index_negative_witness", "Klong.C01.Ext1.index_degenerate_witness", "Klong.C01.Ext1.index_mixed_witness", "Klong.C01.Ext1.join_mixed_witness", "Klong.C01.Ext1.join_raises_witness", "Klong.C01.Ext1.match_charstr_witness", "Klong.C01.Ext1.cut_outside_witness", "Klong.C01.Ext1.examples_witness"]
+THEOREMS += ["Klong.C01.Ext2.expand_correct", "Klong.C01.Ext2.floor_correct", "Klong.C01.Ext2.transpose_correct", "Klong.C01.Ext2.grade_sorts", "Klong.C01.Ext2.grade_stable", "Klong.C01.Ext2.grade_unique", "Klong.C01.Ext2.grade_correct", "Klong.C01.Ext2.range_str_correct", "Klong.C01.Ext2.range_ints_correct", "Klong.C01.Ext2.range_rows_correct", "Klong.C01.Ext2.range_obj_correct", "Klong.C01.Ext2.range_kinds_kept", "Klong.C01.Ext2.range_chr_str_collision", "Klong.C01.Ext2.implGroupKeys_eq", "Klong.C01.Ext2.group_str_correct", "Klong.C01.Ext2.group_ints_correct", "Klong.C01.Ext2.group_spec", "Klong.C01.Ext2.shapeA_ref", "Klong.C01.Ext2.shape_correct", "Klong.C01.Ext2.shape_atom_correct", "Klong.C01.Ext2.shape_deviation", "Klong.C01.Ext2.npReshape_window", "Klong.C01.Ext2.reshape_correct"]
 
 ATOMIC_DYADS = ["+", "-", "*", "&", "|", "<", ">", "=", "!", ":%"]
 STRUCT_DYADS = ["#", "_", ":+", ":#", ":_", "~", ",", "@", "?", ":^"]
